@@ -342,6 +342,17 @@ pub fn head_flag_cycle(kind: Kind) -> Program {
     }
 }
 
+/// As `head_flag_cycle`, but the code of the participants has HIGH durability: the participant's
+/// provisional memo then reads nothing of LOW durability and passes the shallow durability check
+/// after a write of the (LOW) flag (seeded change C22-r4).
+pub fn head_flag_cycle_hi(kind: Kind) -> Program {
+    let mut p = head_flag_cycle(kind);
+    p.name = format!("deeper-headflagcyc-hi-{kind:?}");
+    p.nodes[1].dur = Dur::High;
+    p.nodes[2].dur = Dur::High;
+    p
+}
+
 /// The 27 monotone node templates over three nodes (C12/C13).
 pub fn cyc_template(t: usize) -> Ex {
     let pairs = [(0u8, 1u8), (0, 2), (1, 2)];
